@@ -80,7 +80,7 @@ EXTRA_NAMES = ["\u00b5", "\ufb01b", "\uff41", "foo-bar", "a?", "_\u00b5", "\u216
 def bounds(tier):
     b = BOUNDS[tier]
     return {"L_max_nodes": b["n"], "L_wrappers": ["mod_r", "fn_ret"], "c09_levels": c09.BOUNDS[b["c09"]]["levels"],
-            "c02_shape_lists": b["c02_lists"], "keywords": keyword.kwlist, "extra_names": EXTRA_NAMES, "keyword_templates": KW_TEMPLATES,
+            "c02_shape_lists": b["c02_lists"], "keywords": keyword.kwlist, "extra_names": EXTRA_NAMES, "keyword_templates": KW_TEMPLATES, "negative_literal_templates": NEG_TEMPLATES, "negative_literals": NEG_LITERALS,
             "construct_pairs": len(c12.OUTER) * len(c12.INNER)}
 
 
@@ -111,6 +111,7 @@ def shards(tier):
     step = -(-n2 // 16)
     out += [["c02", 0, 0, lo, min(n2, lo + step)] for lo in range(0, n2, step)]
     out.append(["kw", 0, 0, 0, len(keyword.kwlist)])
+    out.append(["neg", 0, 0, 0, 0])
     np_ = len(c12.OUTER) * len(c12.INNER)
     step = -(-np_ // 16)
     out += [["pairs", 0, 0, lo, min(np_, lo + step)] for lo in range(0, np_, step)]
@@ -299,6 +300,41 @@ def case_kw(acc, k):
                          sig=f"differs:kw:{ti}")
 
 
+NEG_TEMPLATES = ["(** {n} 2)", "(** 2 {n})", "(- {n})", "(- 1 {n})", "(. {n} real)", "(.conjugate {n})", "(get [1 2 3] {n})", "(cut [1 2 3] {n})",
+                 "(* {n} {n})", "(abs {n})", "(not {n})", "(bnot {n})", "[{n} (- {n})]", "(match {n} {n} \"same\" _ \"other\")", "f\"{{{n}}}\"",
+                 "(% {n} 3)", "(// {n} 2)", "(< {n} 0 (- {n}))", "(setv q {n}) (setv r (+= q {n}))"]
+NEG_LITERALS = ["-1", "-1.5", "-0.0", "-2j", "-1-2j", "-0", "-1e3", "-0x1F", "-1_000", "1", "0.0"]
+
+
+def case_neg(acc, ti, n):
+    text = "(setv r " + NEG_TEMPLATES[ti].format(n=n) + ")" if not NEG_TEMPLATES[ti].startswith("(setv q") else NEG_TEMPLATES[ti].format(n=n)
+    case = {"family": "neg", "template": ti, "literal": n, "text": text}
+    acc.states += 1
+    acc.evaluations += 1
+    r = two_codes(acc, text, case, f"neg:{ti}")
+    if r is None:
+        return
+    code_a, code_s, src = r
+    obs = []
+    for code in (code_a, code_s):
+        g = {"__name__": "mc_c14"}
+        try:
+            exec(code, g)
+            out = ("val", repr(g.get("r")))
+        except BaseException as e:
+            out = ("exc", type(e).__name__)
+        obs.append(out)
+    acc.transitions += 2
+    acc.outcome("neg:" + obs[0][0])
+    if ti == 0 and n == "-1":
+        acc.sample({"hy": text, "hy2py": src})
+    if obs[0] != obs[1]:
+        import re
+        tag = "negative-pure-imaginary-literal" if re.fullmatch(r"-[0-9._]+j", n) else "other"
+        acc.disagree("source-behaves-differently", case, f"compiled AST: {obs[0]}; hy2py source: {obs[1]}; source {src[:200]!r}",
+                     sig=f"differs:neg:{tag}:{ti}", tag=tag)
+
+
 def case_pair(acc, idx):
     text, o, i = c12._pairs()[idx]
     case = {"family": "pairs", "idx": idx, "text": text}
@@ -330,6 +366,10 @@ def run_shard(shard, tier):
     elif fam == "kw":
         for k in keyword.kwlist + EXTRA_NAMES:
             case_kw(acc, k)
+    elif fam == "neg":
+        for ti in range(len(NEG_TEMPLATES)):
+            for n in NEG_LITERALS:
+                case_neg(acc, ti, n)
     else:
         for idx in range(lo, hi):
             case_pair(acc, idx)
@@ -347,6 +387,8 @@ def recheck(case, tier):
         case_c02(acc, tuple(case["shapes"]))
     elif fam == "kw":
         case_kw(acc, case["keyword"])
+    elif fam == "neg":
+        case_neg(acc, case["template"], case["literal"])
     else:
         case_pair(acc, case["idx"])
     return acc.disagreements
